@@ -142,12 +142,29 @@ def c20_1(ctx: Ctx) -> RuleResult:
 @rule(P)
 def c20_2(ctx: Ctx) -> RuleResult:
     res = RuleResult("C20.2", "EXC", "an exception stored for later (abort hand-shake) is re-raised on every feasible path")
+    sites = []
     for f, h in broad_handlers(ctx):
-        if f.module.name != MOD:
-            continue
+        if f.module.name == MOD and (f, h) not in sites:
+            sites.append((f, h))
+    # handlers that keep the exception for later, whatever they catch
+    for f in ctx.repo.funcs_in(MOD):
+        for h in nodes_in(f, ast.ExceptHandler):
+            if h.name and any(isinstance(n_, ast.Assign) and isinstance(n_.value, ast.Name) and n_.value.id == h.name for s_ in h.body for n_ in ast.walk(s_)):
+                if not any(h is h2 for _f, h2 in sites):
+                    sites.append((f, h))
+    for f, h in sites:
         short = f.qualname[len(f.module.name) + 1:]
         if (f.module.name, short) in BROAD_HANDLER_EXCEPTIONS:
             continue
+        stores = h.name and any(isinstance(n_, ast.Assign) and isinstance(n_.value, ast.Name) and n_.value.id == h.name for s_ in h.body for n_ in ast.walk(s_))
+        if stores:
+            # the guarded call runs the user's evaluator: whatever it raises has to go through the abort hand-shake
+            # (tell the child, terminate it, wait) before it is raised again
+            classes = cfg_of(ctx.repo, f)._handler_classes(h)
+            broad = classes is None or any(c_ in ("Exception", "BaseException") for c_ in classes)
+            res.add(f, h, "the handler that defers an exception until the child was told to abort catches every Exception", broad,
+                    "" if broad else f"only {sorted(classes)} are deferred: any other exception of the evaluator leaves at once, the child is neither told to abort nor terminated and keeps running",
+                    construct=f"deferring handler in {short}: breadth")
         cfg = cfg_of(ctx.repo, f)
         pf = PathFinder(cfg, dataflow_of(ctx.repo, f))
         ok, wit = True, []
@@ -158,6 +175,7 @@ def c20_2(ctx: Ctx) -> RuleResult:
         res.add(f, h, "after this handler a normal return is unreachable: the stored exception is raised", ok,
                 "" if ok else "if the child exits before the abort message was written the stored exception is dropped and the run reports success", wit,
                 construct=f"except {ast.unparse(h.type) if h.type else ''} in {short}")
+    res.floor = 1
     return res
 
 
@@ -392,6 +410,64 @@ def c20_4(ctx: Ctx) -> RuleResult:
         res.add(handler, handler.node, f"parent->child literal/key `{lit}` is written by the parent and read by the child", ok,
                 "" if ok else (f"`{lit}` is {'written by the parent but never read by the child' if lit in p2c_w else 'read by the child but never written by the parent'}"),
                 construct=f"p2c:{lit}")
+    # a message kind is recognised by the presence of its key: a truthiness test misses a present but falsy
+    # value (an empty error text), unless everything the child writes under the key is a non-empty literal
+    written_vals: dict[str, list[ast.AST]] = {}
+    rq = _request_method(child_cls)
+    for mth in child_cls.methods.values():
+        for call in calls_in(mth):
+            if isinstance(call.func, ast.Attribute) and rq is not None and call.func.attr == rq.name and call.args and isinstance(call.args[0], ast.Dict):
+                for k_, v_ in zip(call.args[0].keys, call.args[0].values):
+                    if isinstance(k_, ast.Constant) and isinstance(k_.value, str):
+                        written_vals.setdefault(k_.value, []).append(v_)
+
+    def never_falsy(v: ast.AST) -> bool:
+        if isinstance(v, ast.Dict):
+            return len(v.keys) > 0
+        if isinstance(v, (ast.List, ast.Tuple, ast.Set)):
+            return len(v.elts) > 0 and not any(isinstance(e, ast.Starred) for e in v.elts)
+        if isinstance(v, ast.Constant):
+            return bool(v.value)
+        return False
+
+    for mth in parent_cls.methods.values():
+        gets = {}
+        for call in calls_in(mth):
+            if isinstance(call.func, ast.Attribute) and call.func.attr == "get" and call.args and isinstance(call.args[0], ast.Constant) and call.args[0].value in written_vals:
+                gets[id(call)] = (call, call.args[0].value)
+        if not gets:
+            continue
+        bound: dict[str, str] = {}
+        for n_ in ast.walk(mth.node):
+            if isinstance(n_, ast.NamedExpr) and id(n_.value) in gets and isinstance(n_.target, ast.Name):
+                bound[n_.target.id] = gets[id(n_.value)][1]
+            if isinstance(n_, ast.Assign) and id(n_.value) in gets and len(n_.targets) == 1 and isinstance(n_.targets[0], ast.Name):
+                bound[n_.targets[0].id] = gets[id(n_.value)][1]
+        for n_ in ast.walk(mth.node):
+            if not isinstance(n_, (ast.If, ast.IfExp, ast.While)):
+                continue
+            stack = [n_.test]
+            while stack:
+                t_ = stack.pop()
+                if isinstance(t_, ast.UnaryOp) and isinstance(t_.op, ast.Not):
+                    stack.append(t_.operand)
+                    continue
+                if isinstance(t_, ast.BoolOp):
+                    stack.extend(t_.values)
+                    continue
+                key = None
+                if id(t_) in gets:
+                    key = gets[id(t_)][1]
+                elif isinstance(t_, ast.NamedExpr) and id(t_.value) in gets:
+                    key = gets[id(t_.value)][1]
+                elif isinstance(t_, ast.Name) and t_.id in bound:
+                    key = bound[t_.id]
+                if key is None:
+                    continue
+                ok = all(never_falsy(v) for v in written_vals[key])
+                res.add(mth, n_, f"the `{key}` message is recognised by the presence of its key (`is not None` / `in`), or its value can never be falsy", ok,
+                        "" if ok else f"`{ast.unparse(t_)[:60]}` tests the value's truth: the child can send `{ast.unparse(written_vals[key][0])[:40]}` which may be empty - the message is then ignored and both sides wait",
+                        construct=f"{mth.name}: presence test of `{key}`")
     # no rounding / formatting of numbers on the path
     forbidden = {"round", "format"}
     forbidden_np = {"numpy.round", "numpy.around", "numpy.float32", "numpy.float16", "numpy.format_float_positional", "numpy.format_float_scientific", "numpy.array2string"}
